@@ -8,17 +8,17 @@ from checks import appcommon
 # per property: directed scenarios, random profiles (quick / thorough), outcome kinds that must be
 # exercised on the unchanged tree (vacuity guard), bounded model config(s)
 TABLE = {
-    "C02": dict(evm=True, directed=["big_powers", "prefund_then_create", "evm_odd_addresses", "fee_edges", "evm_sweep_to_zero", "wrap_amount", "checktx_not_delivered", "evm_value", "evm_selfdestruct", "evm_nested_revert", "evm_mixed", "recreate_in_block", "genesis_twins_unbond", "twin_jail", "huge_stake", "same_block_withdraw",
+    "C02": dict(evm=True, directed=["many_new_accounts", "big_powers", "prefund_then_create", "evm_odd_addresses", "fee_edges", "evm_sweep_to_zero", "wrap_amount", "checktx_not_delivered", "evm_value", "evm_selfdestruct", "evm_nested_revert", "evm_mixed", "recreate_in_block", "genesis_twins_unbond", "twin_jail", "huge_stake", "same_block_withdraw",
                           "slash_then_unstake", "no_proposer_block", "many_unbonding", "forced_unbond"],
                 quick=[dict(n=6, blocks=25), dict(n=4, blocks=20, boundary=True)],
                 thorough=[dict(n=40, blocks=40), dict(n=40, blocks=40, seed_off=50), dict(n=30, blocks=30, boundary=True),
                           dict(n=30, blocks=60, maxtx=8, seed_off=70)],
                 need=[("transfer", True), ("staking", True), ("unstaking", True), ("withdraw", True), ("evidence", True)]),
-    "C04": dict(evm=True, directed=["zero_gas_price", "evm_nested_revert", "evm_sweep_to_zero", "native_to_contract", "evm_basic", "evm_fail", "evm_mixed", "evm_selfdestruct", "transfer_to_created", "nonce_replay", "fee_edges", "setdoc_and_accounts"],
+    "C04": dict(evm=True, directed=["many_new_accounts", "zero_gas_price", "evm_nested_revert", "evm_sweep_to_zero", "native_to_contract", "evm_basic", "evm_fail", "evm_mixed", "evm_selfdestruct", "transfer_to_created", "nonce_replay", "fee_edges", "setdoc_and_accounts"],
                 quick=[dict(n=8, blocks=20, maxtx=7)],
                 thorough=[dict(n=50, blocks=40, maxtx=8), dict(n=50, blocks=40, maxtx=8, seed_off=31)],
                 need=[("transfer", True), ("transfer", False), ("staking", True)]),
-    "C05": dict(evm=True, directed=["zero_gas_price", "evm_odd_addresses", "evm_rejected_then_more", "native_to_contract", "wrap_amount", "evm_fail", "evm_nested_revert", "fee_edges", "nonce_replay", "vote_window_edges", "forced_unbond", "huge_stake", "same_block_withdraw",
+    "C05": dict(evm=True, directed=["many_new_accounts", "zero_gas_price", "evm_odd_addresses", "evm_rejected_then_more", "native_to_contract", "wrap_amount", "evm_fail", "evm_nested_revert", "fee_edges", "nonce_replay", "vote_window_edges", "forced_unbond", "huge_stake", "same_block_withdraw",
                           "setdoc_and_accounts", "price_change"],
                 quick=[dict(n=8, blocks=20, maxtx=7), dict(n=3, blocks=15, boundary=True)],
                 thorough=[dict(n=50, blocks=40, maxtx=8), dict(n=40, blocks=40, maxtx=8, seed_off=11), dict(n=30, blocks=30, boundary=True)],
@@ -39,7 +39,7 @@ TABLE = {
                 quick=[dict(n=8, blocks=25, extra=["-prestart", "0.1"])],
                 thorough=[dict(n=60, blocks=50), dict(n=60, blocks=50, seed_off=23)],
                 need=[("withdraw", True), ("withdraw", False), ("absent", True)]),
-    "C14": dict(directed=["big_powers", "tiny_stakes_slashed", "tiny_voter_slashed", "evidence_burst", "slash_then_unstake", "twin_jail", "vote_window_edges"],
+    "C14": dict(directed=["absences_over_window", "big_powers", "tiny_stakes_slashed", "tiny_voter_slashed", "evidence_burst", "slash_then_unstake", "twin_jail", "vote_window_edges"],
                 quick=[dict(n=8, blocks=30, extra=["-prestart", "0.1"])],
                 thorough=[dict(n=60, blocks=50), dict(n=60, blocks=50, seed_off=29)],
                 need=[("evidence", True), ("absent", True)]),
@@ -51,7 +51,7 @@ TABLE = {
                 quick=[dict(n=8, blocks=25, maxtx=7)],
                 thorough=[dict(n=60, blocks=40, maxtx=8), dict(n=60, blocks=40, maxtx=8, seed_off=41)],
                 need=[("transfer", True), ("transfer", False), ("withdraw", True)]),
-    "C03": dict(directed=["forged_after_credit", "mutation_matrix", "nonce_replay"],
+    "C03": dict(evm=True, directed=["payload_injection", "forged_after_credit", "mutation_matrix", "nonce_replay"],
                 directed_thorough=["forged_after_credit", "mutation_matrix_full", "mutation_matrix", "nonce_replay"],
                 quick=[dict(n=4, blocks=20, maxtx=7)],
                 thorough=[dict(n=40, blocks=40, maxtx=8), dict(n=20, blocks=30, boundary=True)],
